@@ -80,6 +80,10 @@ pub struct Stats {
     pub results: BTreeMap<String, u64>,
     pub samples: Vec<serde_json::Value>,
     pub truncated: bool,
+    /// Case index the hash sets currently belong to: the hashes are salted with the case index, so
+    /// equal hashes only occur within one case and the sets can be flushed at every new case.
+    #[serde(skip)]
+    pub cur_ci: Option<u64>,
 }
 
 impl Stats {
@@ -486,6 +490,10 @@ pub fn str_hash(s: &str) -> u64 {
 
 #[allow(clippy::too_many_arguments)]
 fn account(st: &mut Stats, prop: &PropSpec, case: &Case, spec: &SchedSpec, out: &Outcome, h: &Hist, ci: u64, k: u32) {
+    if st.cur_ci != Some(ci) {
+        st.seal();
+        st.cur_ci = Some(ci);
+    }
     st.executions += 1;
     st.steps += out.sched.decisions.len() as u64;
     st.choice_points += out.sched.choice_points as u64;
